@@ -456,3 +456,24 @@ B("C05", "multi-index reference as if / elif", "xeofs/preprocessing/multi_index_
 B("C02", "multi-index reference as if / elif", "xeofs/preprocessing/multi_index_converter.py", '        match reference:\n            case "fit":\n                reference_indexes = self.coords_from_fit\n            case "transform":\n                reference_indexes = self.coords_from_transform\n', '        if reference == "fit":\n            reference_indexes = self.coords_from_fit\n        elif reference == "transform":\n            reference_indexes = self.coords_from_transform\n')
 B("C14", "multi-index reference as if / elif", "xeofs/preprocessing/multi_index_converter.py", '        match reference:\n            case "fit":\n                reference_indexes = self.coords_from_fit\n            case "transform":\n                reference_indexes = self.coords_from_transform\n', '        if reference == "fit":\n            reference_indexes = self.coords_from_fit\n        elif reference == "transform":\n            reference_indexes = self.coords_from_transform\n')
 M("C02", "multi-index unseen path restores from the fit coordinates", "xeofs/preprocessing/multi_index_converter.py", '            case "transform":\n                reference_indexes = self.coords_from_transform\n', '            case "transform":\n                reference_indexes = self.coords_from_fit\n', "MIRROR.state.multiindex.reference")
+
+# ---------------------------------------------------------------- learned from the operator-mutation sweep and round 4
+MIC = "xeofs/preprocessing/multi_index_converter.py"
+IO = "xeofs/utils/io.py"
+CROSSBASE = "xeofs/cross/base_model_cross_set.py"
+M("C03", "transform ignores the normalized switch", BMS, '            data2D = data2D / self.data["norms"]\n            data2D.name = "scores"\n', '            data2D.name = "scores"\n', "MIRROR.norms.switch")
+M("C11", "rotated variance not recomputed", ROT, "        expvar = (abs(rot_loadings) ** 2).sum(self.feature_name)\n", "", "NORM.rotated")
+M("C11", "inverse of the rotation matrix not transposed", ROT, "output_core_dims=[(input_dims[::-1])]", "output_core_dims=[(input_dims)]", "PAIR.helper.transpose")
+B("C11", "rotated variance via a named square", ROT, "        expvar = (abs(rot_loadings) ** 2).sum(self.feature_name)\n", "        sq = abs(rot_loadings) ** 2\n        expvar = sq.sum(self.feature_name)\n")
+M("C13", "node attributes not decoded on load", IO, "                node.attrs[key] = _desanitize(attr)\n", "                pass\n", "SERIAL.codec.applied")
+M("C13", "variable attributes not encoded on save", IO, "                    node[v].attrs[key] = str(attr)\n", "                    pass\n", "SERIAL.codec.applied")
+M("C17", "init_rank_reduction validated for integer n_modes only", DEC, "        if self.is_based_on_variance:\n            if not (0 < init_rank_reduction <= 1.0):", "        if not self.is_based_on_variance:\n            if not (0 < init_rank_reduction <= 1.0):", "GUARD.role.init_rank_reduction.when")
+M("C02", "MultiIndex not rebuilt by the inverse", MIC, "                X_inverse_transformed = X_inverse_transformed.set_index({dim: indexes})\n", "                pass\n", "MIRROR.state.multiindex.restore")
+M("C02", "fit aliases the two coordinate stores", MIC, "        return self\n\n    def transform(self, X: DataVar) -> DataVar:", "        self.coords_from_transform = self.coords_from_fit\n        return self\n\n    def transform(self, X: DataVar) -> DataVar:", "MIRROR.state.multiindex.distinct")
+M("C14", "fit aliases the two coordinate stores", MIC, "        return self\n\n    def transform(self, X: DataVar) -> DataVar:", "        self.coords_from_transform = self.coords_from_fit\n        return self\n\n    def transform(self, X: DataVar) -> DataVar:", "HIST.alias")
+B("C14", "fit copies the coordinate store", MIC, "        return self\n\n    def transform(self, X: DataVar) -> DataVar:", "        self.coords_from_transform = dict(self.coords_from_fit)\n        return self\n\n    def transform(self, X: DataVar) -> DataVar:")
+M("C09", "whitening fitted before the augmentation", CROSSBASE, "        # Augment data\n        X, Y = self._augment_data(X, Y)\n        # Whiten data\n        X = self.whitener1.fit_transform(X)\n        Y = self.whitener2.fit_transform(Y)\n", "        # Whiten data\n        X = self.whitener1.fit_transform(X)\n        Y = self.whitener2.fit_transform(Y)\n        # Augment data\n        X, Y = self._augment_data(X, Y)\n", "STAGE.fit_order")
+M("C06", "list items glued by position", "xeofs/preprocessing/concatenator.py", "X_concat: DataArray = xr.concat(reindexed_data_list, dim=self.feature_name)", 'X_concat: DataArray = xr.concat(reindexed_data_list, dim=self.feature_name, join="override")', "REINSERT.concat.align")
+M("C07", "list items glued by position", "xeofs/preprocessing/concatenator.py", "X_concat: DataArray = xr.concat(reindexed_data_list, dim=self.feature_name)", 'X_concat: DataArray = xr.concat(reindexed_data_list, dim=self.feature_name, join="override")', "LAYOUT.concat.align")
+M("C07", "items given the first item's sample index", "xeofs/preprocessing/concatenator.py", "            reindexed_data_list.append(reindexed)\n", "            reindexed = reindexed.assign_coords({self.sample_name: X[0].coords[self.sample_name]})\n            reindexed_data_list.append(reindexed)\n", "LAYOUT.concat.align.items")
+B("C07", "explicit outer join", "xeofs/preprocessing/concatenator.py", "X_concat: DataArray = xr.concat(reindexed_data_list, dim=self.feature_name)", 'X_concat: DataArray = xr.concat(reindexed_data_list, dim=self.feature_name, join="outer")')
